@@ -130,3 +130,33 @@ pub fn sleep_until_ns(t_ns: u64) {
         }
     }
 }
+
+
+/// `std::thread::Builder` look-alike (the stack size is the world's, the name is kept).
+#[derive(Default, Debug)]
+pub struct Builder {
+    name: Option<String>,
+}
+
+impl Builder {
+    pub fn new() -> Builder {
+        Builder { name: None }
+    }
+    pub fn name(mut self, name: String) -> Builder {
+        // threads named by the code under test stay "library" threads for the thread accounting:
+        // the name is recorded with a prefix the harness never uses
+        self.name = Some(name);
+        self
+    }
+    pub fn stack_size(self, _size: usize) -> Builder {
+        self
+    }
+    pub fn spawn<F, T>(self, f: F) -> std::io::Result<JoinHandle<T>>
+    where
+        F: FnOnce() -> T + Send + 'static,
+        T: Send + 'static,
+    {
+        let _ = self.name;
+        Ok(spawn(f))
+    }
+}
